@@ -31,6 +31,7 @@ reg(PropertySpec(
 reg(PropertySpec(
     "C07", "Adaptive temperature steps meet the ESS target and are maximal",
     functions=[f"{SMC}:SMCSampler.current_target_efficiency", f"{SMC}:SMCSampler.determine_beta"],
+    lean=["SMC.lean"],
     native=_lazy("checks.native_smc", "native_C07"),
     technique="contract-based deductive verification: bisection loop invariant (bracket) on the real determine_beta, z3; ESS/IW identities in Lean; bounded native scan of the ESS curve",
     assumptions=["'largest' is decided as the bracket left by the bisection: E(beta_star) >= target and E(beta_max) < target with 0 < beta_max - beta_star <= tolerance; it is the supremum only if the ESS curve is non-increasing (hypothesis, not proved)",
@@ -40,7 +41,8 @@ reg(PropertySpec(
 
 reg(PropertySpec(
     "C08", "SMC evidence is the accumulated product of incremental ratios",
-    functions=[f"{SMC}:SMCSampler.sample"],
+    functions=[f"{SMC}:SMCSampler.sample", "samples:SMCSamples.to_standard_samples"],
+    lean=["SMC.lean"],
     native=_lazy("checks.native_smc", "native_C08"),
     technique="contract-based deductive verification: ghost head-population + series-sum invariants on the real SMCSampler.sample loop (z3); ratio/variance formulas in Lean; bounded native recomputation",
     assumptions=["callee contracts log_evidence_ratio = LER, log_evidence_ratio_variance = LERV, resample, mutate, to_standard_samples used modularly"],
@@ -75,4 +77,23 @@ reg(PropertySpec(
     assumptions=["inside the clipping margin (eps) the bounded maps are not bijections: theorems are stated strictly inside the bounds with clip = identity (side condition recorded by the extraction)",
                  "affine: fitted scale non-zero"],
     miss=["floating-point rounding (bounded stand-in only)"],
+))
+
+reg(PropertySpec(
+    "C09", "Resampling selects by incremental weight and copies particles intact",
+    functions=["samples:SMCSamples.resample", f"{SMC}:SMCSampler.sample"],
+    lean=["SMC.lean"],
+    native=_lazy("checks.native_misc", "native_C09"),
+    technique="contract-based deductive verification: symbolic execution of the real SMCSamples.resample (one recorded choice() call, every field take(field, IDX) with the one IDX, temperature, size, dtype; z3) + Lean theorem that the vector handed to the generator equals SOFTMAX(IW) for the definition generated from the same function; call-site obligations in SMCSampler.sample; bounded native stand-in",
+    assumptions=["Generator.choice draws index i with probability p[i] (assumed contract of numpy.random.Generator)", "BaseSamples.__post_init__ converts value-preservingly (contract PostInitModel; verified under C15)"],
+))
+
+reg(PropertySpec(
+    "C16", "Slicing, concatenating, pickling and dict-converting samples keep rows aligned",
+    functions=["samples:BaseSamples.__getitem__", "samples:Samples.__getitem__", "samples:SMCSamples.__getitem__", "samples:BaseSamples.concatenate"],
+    native=_lazy("checks.native_misc", "native_C16"),
+    technique="contract-based deductive verification: symbolic execution of the real __getitem__ (3 classes x 4 optional-field subsets, abstract selection idx) and concatenate against take/concat contracts, evidence-carried on the final state, frame of the source (z3); pickle / dict round trips by the bounded native stand-in",
+    assumptions=["every kind of index (int array, mask, slice) is a selection take(., idx) with one index map per idx (assumed contract of array indexing)",
+                 "sequences of operations follow by induction from the per-operation contracts"],
+    miss=["__getstate__/__setstate__ and to_dict/from_dict are covered by the bounded stand-in only"],
 ))
